@@ -596,6 +596,9 @@ EvalCall(e, st) ==
     CASE e.f = "void" -> (LET r == EvalSeq(e.as, 1, st, <<>>) IN IF r.ok THEN R(r.st, VVoid) ELSE E(r.st, r.cls))
       [] e.f = "one" -> (LET r == EvalSeq(e.as, 1, st, <<>>) IN
                          IF ~r.ok THEN E(r.st, r.cls) ELSE IF Len(r.vs) # 1 THEN E(r.st, "arg-count") ELSE R(r.st, r.vs[1]))
+      [] e.f = "pv" -> (LET r == EvalSeq(e.as, 1, st, <<>>) IN      \* logs its argument and returns it
+                        IF ~r.ok THEN E(r.st, r.cls) ELSE IF Len(r.vs) # 1 THEN E(r.st, "arg-count")
+                        ELSE R(LogProbe(r.st, r.vs), r.vs[1]))
       [] e.f = "two" -> R(st, VMulti(<<VSmall(1), VSmall(2)>>))
       [] e.f = "probe" -> (LET r == EvalSeq(e.as, 1, st, <<>>) IN
                            IF ~r.ok THEN E(r.st, r.cls) ELSE R(LogProbe(r.st, r.vs), VVoid))
